@@ -3,6 +3,7 @@ import Reduino.Driver.Core
 import Reduino.Lang.Render
 import Reduino.Lang.InF
 import Reduino.Lang.Promote
+import Reduino.Lang.Libs
 /- `lang|tr|<sexpr>`, `lang|pyrun|<sexpr>|N|fuel`, `lang|crun|<sexpr>|N|fuel` -/
 namespace Reduino.Driver
 open Reduino.Lang
@@ -91,6 +92,15 @@ def handleLang (fields : List String) : Option String :=
       | .ok c => some ("ok " ++ hexOf ("\n".intercalate c.lines))
       | .error .breakInMainLoop => some "reject break-in-main-loop"
       | .error .outsideFragment => some "outside-fragment"
+  | ["libs", decls] =>
+    let ds : List Libs.Decl := (decls.splitOn ";").filterMap fun d =>
+      match words d with
+      | [k, p] =>
+        let kind : Libs.Kind := if k == "servo" then .servo else if k == "lcdPar" then .lcdPar else if k == "lcdI2c" then .lcdI2c else .other
+        let pos : Libs.Pos := if p == "setupTop" then .setupTop else if p == "loopTop" then .loopTop else .nested
+        some ⟨kind, pos⟩
+      | _ => none
+    some s!"libs={",".intercalate (Libs.libs ds)} inc={",".intercalate (Libs.includes ds)} inst={",".intercalate (Libs.instantiated ds)}"
   | ["promote", parent, branches] =>
     let bs := (branches.splitOn ";").map words
     some (" ".intercalate (Promote.promote Promote.sorted (words parent) bs))
